@@ -514,36 +514,48 @@ def plan_for(rs, k, am, partner, tier):
     nf = len(am["faces"])
     n = len(am["pos"])
     runs, add, state = adder(am, k)
-
-    # the three-slot meshes of the exhaustive family meet the option combinations in rotation
+    # quick tier: the three-slot meshes of the exhaustive family meet the operations, masks and option
+    # combinations in rotation (about half of the plan each); every other mesh gets the whole plan
     light = tier == "quick" and n <= 3 and nf <= 2
+    turn = [k]
+
+    def take(period=2):
+        turn[0] += 1
+        return not light or turn[0] % period == 0
+
     for mt, mn in itertools.product((False, True), repeat=2):
-        if light and (mt == mn) != (k % 2 == 0):
-            continue
-        add("merge_vertices", {"mt": mt, "mn": mn, "dv": bool(rs.rand() < 0.3), "du": bool(rs.rand() < 0.3),
-                               "dn": bool(rs.rand() < 0.3)})
+        if take(4):
+            add("merge_vertices", {"mt": mt, "mn": mn, "dv": bool(rs.rand() < 0.3), "du": bool(rs.rand() < 0.3),
+                                   "dn": bool(rs.rand() < 0.3)})
     for op in ("unmerge_vertices", "remove_unreferenced_vertices", "remove_duplicate_faces",
                "remove_degenerate_faces", "remove_infinite_values"):
-        add(op)
+        if take():
+            add(op)
     fm = [("b", rand_bool_mask(rs, nf)), ("i", rand_index_mask(rs, nf, False)), ("i", rand_index_mask(rs, nf, True))]
     if nf <= 2:
         fm += [("b", list(b)) for b in itertools.product((0, 1), repeat=nf)]
     else:
         fm.append(("b", rand_bool_mask(rs, nf)))
     for kind, mask in fm:
-        add("update_faces", mk=kind, mask=mask)
+        if take():
+            add("update_faces", mk=kind, mask=mask)
     for kind, mask in vertex_masks(rs, am):
-        add("update_vertices", mk=kind, mask=mask)
+        if take():
+            add("update_vertices", mk=kind, mask=mask)
     mask, inv = inverse_plan(rs, am)
-    add("update_vertices_inv", mk="i", mask=mask, inv=inv)
+    if take():
+        add("update_vertices_inv", mk="i", mask=mask, inv=inv)
     for app, ow in itertools.product((True, False), (False, True)):
-        if light and (app == ow) != (k % 2 == 0):
-            continue
-        add("submesh", {"app": app, "ow": ow, "rep": bool(rs.rand() < 0.25)}, seq=face_sequences(rs, nf))
-    add("split", {"ow": False, "rep": False})
-    add("split", {"ow": True, "rep": False})
-    if rs.rand() < 0.3:
+        if take(4):
+            add("submesh", {"app": app, "ow": ow, "rep": bool(rs.rand() < 0.25)}, seq=face_sequences(rs, nf))
+    if take():
+        add("split", {"ow": False, "rep": False})
+    if take():
+        add("split", {"ow": True, "rep": False})
+    if rs.rand() < 0.3 and not light:
         add("split", {"ow": False, "rep": True})
+    if not take():
+        return runs
     # concatenation with a second mesh: the record carries the two inputs stacked into one original
     b = partner
     both = {"pos": am["pos"] + b["pos"], "uvc": am["uvc"] + b["uvc"], "nc": am["nc"] + b["nc"],
@@ -560,12 +572,12 @@ def work_items(tier):
     meshes = []
     if tier == "thorough":
         meshes += [("exh", m) for m in exhaustive_meshes(rs, 2, True)]
-        meshes += [("rnd", sample_mesh(rs, 6, 4)) for _ in range(18000)]
+        meshes += [("rnd", sample_mesh(rs, 6, 4)) for _ in range(14000)]
         meshes += [("mid", sample_mesh(rs, 8, 6)) for _ in range(1000)]
         meshes += [("big", big_mesh(rs)) for _ in range(1500)]
     else:
         meshes += [("exh", m) for m in exhaustive_meshes(rs, 2, False)]
-        meshes += [("rnd", sample_mesh(rs, 6, 4)) for _ in range(480)]
+        meshes += [("rnd", sample_mesh(rs, 6, 4)) for _ in range(380)]
         meshes += [("mid", sample_mesh(rs, 8, 6)) for _ in range(50)]
         meshes += [("big", big_mesh(rs)) for _ in range(40)]
     cases = []
@@ -756,7 +768,8 @@ def main(argv):
         "rejected_without_deviation": unattributed,
         "exhaustive": False,
         "exhaustive_scope": "every mesh of one face over three slots x the five duplicate patterns of their positions; "
-                      "two-face meshes over three slots " + ("x all five patterns" if tier == "thorough" else "with the patterns in rotation"),
+                      "two-face meshes over three slots " + ("x all five patterns, whole operation plan" if tier == "thorough"
+                                                                    else "with patterns and operations in rotation"),
         "tlc_wall_s": round(wall, 1),
         "samples": samples[:4],
     }
